@@ -40,10 +40,10 @@ Print Assumptions C07_arp_parse_total.
 
 (* ---------------- UDP ---------------- *)
 
-Theorem C07_udp_accessors_safe : forall sum_ok (sum_fill : list Z -> Z) bs,
+Theorem C07_udp_accessors_safe : forall sum_ok (sum_fill : list Z -> Z) is_v4 bs,
   bytes_ok bs = true -> udp_check_len bs = Ok tt ->
   udp_src_port bs <> Panic /\ udp_dst_port bs <> Panic /\ udp_len bs <> Panic /\
-  udp_checksum bs <> Panic /\ udp_payload bs <> Panic /\ udp_verify_checksum sum_ok bs <> Panic.
+  udp_checksum bs <> Panic /\ udp_payload bs <> Panic /\ udp_verify_checksum sum_ok is_v4 bs <> Panic.
 Proof. exact udp_accessors_safe. Qed.
 Print Assumptions C07_udp_accessors_safe.
 
